@@ -23,6 +23,8 @@ type LocalAssignStmt struct {
 
 	Names []string
 	Exprs []Expr
+	// LocalFunction is true for `local function f`: f is in scope inside its own body
+	LocalFunction bool
 }
 
 type FuncCallStmt struct {
